@@ -616,4 +616,238 @@ Section PackProofs.
     - apply rc2_outcome.
     - apply artifact_outcome.
   Qed.
+
+  (* ---------------------------------------------------------------- *)
+  (* 6. the property                                                   *)
+  (* ---------------------------------------------------------------- *)
+
+  (* 6a. rejection happens before any storage operation *)
+  Theorem reject_before_push f tc fa s at_ o now :
+    must_reject f at_ o = true ->
+    exists e, pack marshal H f tc fa s at_ o now = (s, Err e) /\ validation_err e.
+  Proof.
+    intro MR. destruct (pack marshal H f tc fa s at_ o now) as [s' r] eqn:P.
+    apply pack_outcome in P. inversion P; subst; try congruence. eauto.
+  Qed.
+
+  Theorem validation_error_only_before_push f tc fa s at_ o now s' e :
+    pack marshal H f tc fa s at_ o now = (s', Err e) -> validation_err e ->
+    s' = s /\ must_reject f at_ o = true.
+  Proof.
+    intros P V. apply pack_outcome in P. inversion P; subst; auto;
+      destruct V as [V|[V|V]]; discriminate.
+  Qed.
+
+  Theorem ok_not_rejected f tc fa s at_ o now s' d m :
+    pack marshal H f tc fa s at_ o now = (s', Ok d m) -> must_reject f at_ o = false.
+  Proof. intro P. apply pack_outcome in P. inversion P; subst; auto. Qed.
+
+  (* 6b. a malformed created annotation: an error, and only the blob "{}" was touched *)
+  Definition only_empty_blob_added (st st' : list entry) : Prop :=
+    exists l, st' = st ++ l /\ Forall (fun e => e_bytes e = empty_json /\ e_dg e = H empty_json /\ e_sz e = 2%Z) l.
+
+  Lemma blob_steps_store s s' evs :
+    steps s s' evs -> Forall blob_ev evs -> only_empty_blob_added (s_store s) (s_store s').
+  Proof.
+    intros (_ & _ & l & E & F) B. exists l. split; auto.
+    eapply Forall_impl; [|exact F]. intros e (r & d & bs & I & ->).
+    rewrite Forall_forall in B. specialize (B _ I). destruct r; simpl in B; [|contradiction].
+    destruct B as (-> & D1 & D2). simpl. auto.
+  Qed.
+
+  Theorem bad_created_no_manifest f tc fa s at_ o now s' r v :
+    ann_get (created_key f) (o_ann o) = Some v -> rfc3339_ok v = false ->
+    pack marshal H f tc fa s at_ o now = (s', r) ->
+    (exists e, r = Err e /\ (must_reject f at_ o = false -> fa = None -> e = EInvalidDateTime)) /\
+    (exists evs, steps s s' evs /\ Forall blob_ev evs) /\
+    only_empty_blob_added (s_store s) (s_store s').
+  Proof.
+    intros G R P.
+    assert (EC : ensure_created (o_ann o) (created_key f) now = None) by (apply ensure_created_none; eauto).
+    apply pack_outcome in P. inversion P; subst; try congruence.
+    - split; [exists e; split; [reflexivity | congruence]|].
+      split; [exists []; split; [apply steps_refl | constructor]|].
+      exists []. split; [now rewrite app_nil_r | constructor].
+    - split; [eexists; split; [reflexivity | auto]|].
+      split; [eauto | eapply blob_steps_store; eauto].
+    - split; [eexists; split; [reflexivity | intros _ F; contradiction]|].
+      split; [eauto | eapply blob_steps_store; eauto].
+  Qed.
+
+  (* 6c. success *)
+  Theorem ok_consistent f tc fa s at_ o now s' d m :
+    pack marshal H f tc fa s at_ o now = (s', Ok d m) ->
+    exists ann evs,
+      ensure_created (o_ann o) (created_key f) now = Some ann /\
+      m = requested_manifest f at_ o ann /\
+      d = result_desc f m /\
+      steps s s' (evs ++ [EvPush RManifest d (marshal m)]) /\ Forall blob_ev evs /\
+      stored (t_bydigest tc) (s_store s') d = true /\
+      Forall (fun x => stored (t_bydigest tc) (s_store s') x = true) (invented f at_ o).
+  Proof.
+    intro P. apply pack_outcome in P. inversion P; subst. exists ann, evs. auto 10.
+  Qed.
+
+  Lemma requested_ann f at_ o ann : m_ann (requested_manifest f at_ o ann) = ann.
+  Proof. destruct f; reflexivity. Qed.
+
+  (* the created annotation is there and parses; every other annotation is the caller's *)
+  Theorem ok_created f tc fa s at_ o now s' d m :
+    rfc3339_ok now = true ->
+    pack marshal H f tc fa s at_ o now = (s', Ok d m) ->
+    (exists v, ann_get (created_key f) (m_ann m) = Some v /\ rfc3339_ok v = true /\
+               (ann_get (created_key f) (o_ann o) = Some v \/
+                ann_get (created_key f) (o_ann o) = None /\ v = now)) /\
+    (forall k, k <> created_key f -> ann_get k (m_ann m) = ann_get k (o_ann o)) /\
+    d_ann d = m_ann m.
+  Proof.
+    intros RN P. apply ok_consistent in P as (ann & evs & EC & -> & -> & _).
+    rewrite requested_ann. apply ensure_created_spec in EC as ((v & G & C) & O).
+    split; [|split; [exact O | simpl; now rewrite requested_ann]].
+    exists v. split; auto. destruct C as [(G0 & R & _) | (G0 & -> & _)]; auto.
+  Qed.
+
+  (* every push Pack attempts describes its own content; so a store in which every entry is
+     addressed by the digest and size of its bytes stays that way *)
+  Definition wf_entry (e : entry) : Prop :=
+    e_dg e = H (e_bytes e) /\ e_sz e = Z.of_nat (length (e_bytes e)).
+  Definition wf_store (st : list entry) : Prop := Forall wf_entry st.
+
+  Definition consistent_ev (ev : event) : Prop :=
+    match ev with
+    | EvExists _ => True
+    | EvPush _ d bytes => d_dg d = H bytes /\ d_sz d = Z.of_nat (length bytes)
+    end.
+
+  Lemma blob_ev_consistent ev : blob_ev ev -> consistent_ev ev.
+  Proof.
+    destruct ev as [d | [|] d bs]; simpl; auto; [|contradiction].
+    intros (-> & D1 & D2). split; auto.
+  Qed.
+
+  Lemma steps_wf s s' evs :
+    steps s s' evs -> Forall consistent_ev evs -> wf_store (s_store s) -> wf_store (s_store s').
+  Proof.
+    intros (_ & _ & l & -> & F) C W. apply Forall_app. split; auto.
+    eapply Forall_impl; [|exact F]. intros e (r & d & bs & I & ->).
+    rewrite Forall_forall in C. apply (C _ I).
+  Qed.
+
+  Theorem pack_pushes_consistent f tc fa s at_ o now s' r :
+    pack marshal H f tc fa s at_ o now = (s', r) ->
+    exists evs, steps s s' evs /\ Forall consistent_ev evs.
+  Proof.
+    intro P. apply pack_outcome in P. inversion P; subst.
+    - exists []. split; [apply steps_refl | constructor].
+    - exists evs. split; auto. eapply Forall_impl; [|eassumption]. apply blob_ev_consistent.
+    - exists evs. split; auto. eapply Forall_impl; [|eassumption]. apply blob_ev_consistent.
+    - eexists. split; [eassumption|]. apply Forall_app. split.
+      + eapply Forall_impl; [|eassumption]. apply blob_ev_consistent.
+      + constructor; [|constructor]. split; reflexivity.
+    - eexists. split; [eassumption|]. apply Forall_app. split.
+      + eapply Forall_impl; [|eassumption]. apply blob_ev_consistent.
+      + constructor; [|constructor]. split; reflexivity.
+  Qed.
+
+  Theorem pack_preserves_wf f tc fa s at_ o now s' r :
+    pack marshal H f tc fa s at_ o now = (s', r) -> wf_store (s_store s) -> wf_store (s_store s').
+  Proof.
+    intros P W. apply pack_pushes_consistent in P as (evs & S & C). eapply steps_wf; eauto.
+  Qed.
+
+  Lemma stored_In bd st d : stored bd st d = true -> exists e, In e st /\ same_key bd d e = true.
+  Proof. unfold stored. intro E. apply existsb_exists in E. exact E. Qed.
+
+  Lemma same_key_dg bd d e : same_key bd d e = true -> d_dg d = e_dg e.
+  Proof. unfold same_key. intro E. apply andb_true_iff in E as [E _]. now apply str_eqb_spec. Qed.
+
+  (* the returned descriptor's digest (and, for a collision-free digest, size and bytes) are
+     those of the content now stored under it, which decodes to the requested manifest *)
+  Theorem ok_descriptor_describes_stored f tc fa s at_ o now s' d m :
+    wf_store (s_store s) ->
+    pack marshal H f tc fa s at_ o now = (s', Ok d m) ->
+    d_dg d = H (marshal m) /\ d_sz d = Z.of_nat (length (marshal m)) /\ d_mt d = kind_mt (m_kind m) /\
+    exists e, In e (s_store s') /\ same_key (t_bydigest tc) d e = true /\
+              H (e_bytes e) = d_dg d /\
+              ((forall x y, H x = H y -> x = y) -> e_bytes e = marshal m /\ e_sz e = d_sz d).
+  Proof.
+    intros W P. pose proof (pack_preserves_wf _ _ _ _ _ _ _ _ _ P W) as W'.
+    apply ok_consistent in P as (ann & evs & EC & -> & -> & S & B & St & I).
+    split; [reflexivity|]. split; [reflexivity|]. split; [reflexivity|].
+    apply stored_In in St as (e & In' & K). exists e. split; auto. split; auto.
+    unfold wf_store in W'. rewrite Forall_forall in W'. destruct (W' _ In') as (D1 & D2).
+    pose proof (same_key_dg _ _ _ K) as D. split; [congruence|].
+    intros Hinj. assert (EB : e_bytes e = marshal (requested_manifest f at_ o ann)).
+    { apply Hinj. rewrite <- D1, <- D. reflexivity. }
+    split; auto. rewrite D2, EB; reflexivity.
+  Qed.
+
+  (* every blob Pack invented is in the target, with the content "{}" *)
+  Theorem ok_invented_present f tc fa s at_ o now s' d m :
+    wf_store (s_store s) ->
+    pack marshal H f tc fa s at_ o now = (s', Ok d m) ->
+    forall x, In x (invented f at_ o) ->
+      d_dg x = H empty_json /\ d_sz x = 2%Z /\
+      exists e, In e (s_store s') /\ same_key (t_bydigest tc) x e = true /\ H (e_bytes e) = H empty_json /\
+                ((forall a c, H a = H c -> a = c) -> e_bytes e = empty_json).
+  Proof.
+    intros W P x Ix. pose proof (pack_preserves_wf _ _ _ _ _ _ _ _ _ P W) as W'.
+    apply ok_consistent in P as (ann & evs & EC & -> & -> & S & B & St & I).
+    rewrite Forall_forall in I. specialize (I _ Ix).
+    assert (BD : blob_desc x).
+    { unfold invented, invented_config, invented_layer in Ix.
+      destruct f; destruct (o_config o); destruct (layers_or_empty (o_layers o)); simpl in Ix;
+        repeat (destruct Ix as [<- | Ix]; [try apply blob_desc_custom; try apply blob_desc_empty; try apply blob_desc_empty0|]);
+        try contradiction. }
+    destruct BD as (D1 & D2). split; auto. split; auto.
+    apply stored_In in I as (e & In' & K). exists e. split; auto. split; auto.
+    unfold wf_store in W'. rewrite Forall_forall in W'. destruct (W' _ In') as (E1 & E2).
+    pose proof (same_key_dg _ _ _ K) as D.
+    assert (HE : H (e_bytes e) = H empty_json) by congruence.
+    split; auto.
+  Qed.
+
+  (* closure: each successor of the packed manifest is a descriptor the caller supplied or is
+     present in the target (so the hypotheses of C01 about the source graph are the caller's) *)
+  Definition opt_list {A} (x : option A) : list A := match x with Some a => [a] | None => [] end.
+
+  Definition successors (m : manifest) : list desc :=
+    opt_list (m_config m) ++ match m_layers m with Some l => l | None => [] end ++ opt_list (m_subject m).
+
+  Definition supplied (o : opts) : list desc :=
+    opt_list (o_config o) ++ layers_or_empty (o_layers o) ++ opt_list (o_subject o).
+
+  Theorem ok_closed f tc fa s at_ o now s' d m :
+    pack marshal H f tc fa s at_ o now = (s', Ok d m) ->
+    forall x, In x (successors m) ->
+      In x (supplied o) \/ stored (t_bydigest tc) (s_store s') x = true.
+  Proof.
+    intros P x Ix. pose proof (ok_not_rejected _ _ _ _ _ _ _ _ _ _ P) as MR.
+    apply ok_consistent in P as (ann & evs & EC & -> & -> & S & B & St & I).
+    rewrite Forall_forall in I.
+    assert (In x (supplied o) \/ In x (invented f at_ o)); [|destruct H0; auto].
+    clear I St S B EC. destruct f; try discriminate; clear MR; revert Ix;
+      unfold successors, supplied, invented, requested_manifest, requested_config, invented_config, invented_layer;
+      destruct (o_config o) as [c|]; destruct (o_subject o) as [sj|];
+      destruct (layers_or_empty (o_layers o)) as [|l0 ls]; cbn [opt_list m_config m_layers m_subject app];
+      rewrite ?app_nil_r; simpl; intro Ix; intuition auto.
+    all: try (left; right; right; apply in_or_app; simpl; tauto).
+    all: try (apply in_app_or in H1; simpl in H1; intuition auto; left; right; right; apply in_or_app; simpl; tauto).
+    all: try (left; right; apply in_or_app; simpl; tauto).
+  Qed.
+
+  (* 6d. identical inputs with a fixed created annotation give an identical descriptor and
+     manifest, whatever the target, its content, the clock and the faults *)
+  Theorem deterministic f at_ o v tc1 fa1 s1 now1 s1' d1 m1 tc2 fa2 s2 now2 s2' d2 m2 :
+    ann_get (created_key f) (o_ann o) = Some v ->
+    pack marshal H f tc1 fa1 s1 at_ o now1 = (s1', Ok d1 m1) ->
+    pack marshal H f tc2 fa2 s2 at_ o now2 = (s2', Ok d2 m2) ->
+    d1 = d2 /\ m1 = m2.
+  Proof.
+    intros G P1 P2.
+    apply ok_consistent in P1 as (a1 & e1 & EC1 & -> & -> & _).
+    apply ok_consistent in P2 as (a2 & e2 & EC2 & -> & -> & _).
+    rewrite (ensure_created_fixed _ _ now1 now2 v G) in EC1. rewrite EC1 in EC2. injection EC2 as <-.
+    auto.
+  Qed.
 End PackProofs.
